@@ -148,10 +148,10 @@ func ConvertOne(codec *dnsdata.Codec, line []byte) (out LineOut) {
 // Reference is the line-by-line use of the codec in one goroutine: per line
 // output, then the accumulator records, then the feature record.
 type Reference struct {
-	Lines   []LineOut
-	Acc     []KV
-	Feat    []KV
-	AllOk   bool
+	Lines    []LineOut
+	Acc      []KV
+	Feat     []KV
+	AllOk    bool
 	AnyPanic bool
 	FirstBad int // index of the first rejected line, -1 if none
 }
